@@ -35,6 +35,9 @@ typedef struct carquet_statistics_builder {
     size_t min_len;
     size_t max_len;
 
+    /* A value too long for min/max storage was seen: bounds are unknown */
+    bool bounds_unknown;
+
     /* For computing distinct count (simple approximation) */
     /* Full HyperLogLog would be better but more complex */
 } carquet_statistics_builder_t;
@@ -149,6 +152,7 @@ void carquet_statistics_builder_reset(carquet_statistics_builder_t* builder) {
     builder->num_values = 0;
     builder->min_len = 0;
     builder->max_len = 0;
+    builder->bounds_unknown = false;
 }
 
 /* ============================================================================
@@ -321,8 +325,10 @@ carquet_status_t carquet_statistics_add_byte_arrays(
         const uint8_t* val = values[i].data;
         size_t val_len = (size_t)values[i].length;
 
-        /* Skip if too large */
+        /* Too large to store: min/max can no longer be true bounds of all
+         * values, so none are reported (absent statistics are always safe) */
         if (val_len > sizeof(builder->min_value)) {
+            builder->bounds_unknown = true;
             continue;
         }
 
@@ -392,7 +398,7 @@ carquet_status_t carquet_statistics_build(
     }
 
     /* Min value */
-    if (builder->has_min && builder->min_len > 0) {
+    if (builder->has_min && builder->min_len > 0 && !builder->bounds_unknown) {
         if (arena) {
             stats->min_value = carquet_arena_memdup(arena,
                 builder->min_value, builder->min_len);
@@ -410,7 +416,7 @@ carquet_status_t carquet_statistics_build(
     }
 
     /* Max value */
-    if (builder->has_max && builder->max_len > 0) {
+    if (builder->has_max && builder->max_len > 0 && !builder->bounds_unknown) {
         if (arena) {
             stats->max_value = carquet_arena_memdup(arena,
                 builder->max_value, builder->max_len);
